@@ -418,6 +418,22 @@ def run(tier, seed):
                     if xmod.callee_cname(c) in ("strcat", "strcpy", "stpcpy") and sp[0] == "v":
                         f, _ = M.find_fact(("ne", ("load", ("inst", sp[1])), ord("/")), F.at_inst(c))
                         if f is None:
+                            # the pointer arrives through a merge (`p = s != NULL ? skip(s) : NULL; ... if (p != NULL) strcat(r, p)`): every way it can
+                            # arrive non-NULL brings the fact about its own first byte along
+                            dsp = fn.defn(sp)
+                            if dsp is not None and not dsp.is_param and dsp.op in ("phi", "select"):
+                                okall, nn = True, 0
+                                one_level = [(v_, F.on_edge(pb_, dsp.block.id)) for v_, pb_ in dsp.incoming] if dsp.op == "phi" else [(v_, F.at_inst(dsp)) for v_ in dsp.ops[1:]]
+                                for s2, fs2 in one_level:
+                                    s2s = M.strip(s2, ("bitcast",))
+                                    if s2s[0] == "null" or (is_const(s2s) and const_val(s2s) == 0):
+                                        continue
+                                    nn += 1
+                                    if s2s[0] != "v" or M.find_fact(("ne", ("load", ("inst", s2s[1])), ord("/")), set(fs2) | set(F.at_inst(c)))[0] is None:
+                                        okall = False
+                                if okall and nn:
+                                    f = ("ne", "*p on every way p arrives", ord("/"))
+                        if f is None:
                             # s + i after `while (i < strlen(s) && s[i] == '/') ++i;`: the scan is left over one of two edges - the byte at i is
                             # not a '/', or i has reached strlen(s) of this very string (counting up by one from 0), where the terminator stands
                             dg0 = fn.defn(sp)
